@@ -355,6 +355,18 @@ def explore(run, tier):
         cases.append({'k': 'msg', 'cfg': 'pkg', 'codec': codec, 'hex': 1, 'data': data.hex(), 'mut': 'hexspelling'})
     for cfg, codec, data in decimal_corpus():
         cases.append({'k': 'msg', 'cfg': cfg, 'codec': codec, 'hex': 0, 'data': data.hex(), 'mut': 'decimal-corpus'})
+    # the same texts (everything Decimal()'s grammar knows: exponents, a trailing point, Infinity, NaN, signs, blanks) in an
+    # INTEGER element of the packaged configuration (DE4, twelve characters): a value int() reads, or the library error
+    for codec in ('latin_1', 'cp500'):
+        for raw in DECIMAL_TEXTS:
+            for variant in (raw.ljust(12), raw.rjust(12), raw.rjust(12, '0')):
+                try:
+                    body = variant.encode(codec)
+                except UnicodeError:
+                    continue
+                if len(body) == 12:
+                    cases.append({'k': 'msg', 'cfg': 'pkg', 'codec': codec, 'hex': 0,
+                                  'data': ('1240'.encode(codec) + bm([4]) + body).hex(), 'mut': 'int-corpus'})
     for _ in range(1500 if not thorough else 30000):
         n = rng.choice([0, 3, 4, 19, 20, 21, 36, 40, rng.randrange(0, 200)])
         data = bytes(rng.getrandbits(8) for _ in range(n))
